@@ -31,9 +31,14 @@ MANIFEST = {
     "design_ref": "DESIGN.md section 5, C16",
 }
 RULE = ("random operation sequences (<=40 ops quick, <=400 thorough) per object kind over a key universe with case variants, invalid "
-        "keys, every registered Easy key and glob pattern, and values of accepted and rejected types; after EVERY step the return value / "
+        "keys, every registered Easy key and glob pattern -- the wildcard part of a pattern key with further separators, empty parts, "
+        "blanks, glob characters and non-ASCII text ('performer:a:b', 'performer::x', 'replaygain_a_b_gain'), always interleaved with its "
+        "prefixes / extensions and near misses -- and values of accepted and rejected types; after EVERY step the return value / "
         "exception class, sorted items() and keys() are compared with the reference dictionary (violation), with the extracted Coq model "
-        "for the modelled kinds (disagreement), and the wrapped native tags with the Easy view. non-trivial = a step that changed the "
+        "for the modelled kinds (disagreement), and the wrapped native tags with the Easy view; an assignment that raised must leave "
+        "items() as it was (stated without the per-key rules). Plus a sweep: every Easy key that has a setter x every rejected value "
+        "class (not a list, wrong item types, wrong list lengths, non-ASCII / unparsable / out-of-range content) x key absent | present "
+        "| present next to a prefix-related key, through set / setdefault / update. non-trivial = a step that changed the "
         "mapping or raised; distinct by (kind, operation, key class, outcome class)")
 
 DATA = os.path.join(common.REPO, "tests", "data")
@@ -70,7 +75,7 @@ ASF_KEYS = ["Title", "title", "WM/X", "Author", ""]
 ASF_VALS = [S("a"), L(S("a"), S("b")), L(), ["i", 5], L(["i", 5]), ["i", -1], ["i", 2 ** 32], ["B", True], ["b", "78"], ["n"],
             ["f", 1.5], L(S("a"), ["n"]), ["asf", 4, ["i", 5]], ["asf", 0, S("u")], L(S("c"))]
 EZ_STR = ["a", "b", "2001", "2001-13-45 junk", "1-2", "1.5 dB", "-3", "100 dB", "0.5", "1", "2", "17", "RX", "(4)Eurodisco",
-          "", "http://a", "http://b", "\xe9", "3/4", "x"]
+          "", "http://a", "http://b", "\xe9", "3/4", "x", "nan", "1e400", "a:b", " "]
 EZID3_SPECIAL = ["genre", "date", "originaldate", "musicbrainz_trackid", "website", "performer", "performer:guitar",
                  "PERFORMER:Guitar", "performer:Guitar", "performer:", "performer:[a]", "performer:*",
                  "replaygain_album_gain", "replaygain_album_peak", "REPLAYGAIN_ALBUM_GAIN", "replaygain_Album_peak",
@@ -114,7 +119,8 @@ def ez_vals(strs, rng):
         if r < 0.75:
             return L(*[S(rng.choice(strs)) for _ in range(rng.choice([0, 1, 1, 1, 2, 3]))])
         return rng.choice([["i", 5], ["i", 1], ["n"], ["B", True], L(["i", 5]), L(["i", 1]), L(["n"]), L(S("a"), ["i", 5]),
-                           L(S("\xe9"), ["i", 5]), L(["i", 0], S("a"))])
+                           L(S("\xe9"), ["i", 5]), L(["i", 0], S("a")), ["t", [S("a")]], ["t", []], ["t", [S("a"), S("b")]],
+                           ["f", 0.5], L(["f", 0.5])])
     return one
 
 
@@ -341,7 +347,7 @@ def run_seq(kind, ops, quirks=None, model=None):
     o = kind.make()
     ref = kind.ref(q)
     res = {"fail": None, "hits": [], "trace": [], "model_fail": None}
-    prev = real_state(o)[0]
+    prev = None
     for i, op in enumerate(ops):
         a = real_apply(o, op)
         rop = op
@@ -358,6 +364,8 @@ def run_seq(kind, ops, quirks=None, model=None):
                            "observed": a, "expected": b}
             return res
         items, keys = real_state(o)
+        if i == 0 and a[0] == "exc":
+            prev = real_state(kind.make())[0]        # the state before the first step: that of a fresh object
         if (a[0] == "exc" and items != prev and "easyid3-failed-set-mutates" not in ref.hits and
                 (op[0] in ("set", "setdefault") or (op[0] == "update" and len(op[2]) == 1))):
             # stated without the per-key reference rules: an assignment that raised must not have changed the mapping
@@ -704,7 +712,7 @@ def rejected_sweep(ctx, drv, kname, share=1.0):
             how = ("set", "setdefault", "update")[j % 3]
             last = [how, None, [[key, bad]]] if how == "update" else [how, key, bad]
             pres = [[], [["set", key, good]]]
-            if rel:
+            if rel and j % 2 == 0:
                 pres.append([["set", rng.choice(rel), good], ["set", key, good]])
             for pre in pres:
                 if how == "setdefault" and pre:
